@@ -87,14 +87,17 @@ def op_term(o):
     raise ValueError(t)
 
 
+def params_term(ps):
+    return clist(ps, lambda p: "(%d, Build_params %s %d)" % (
+        p["h"], clist(p["v"], lambda v: "(Build_validator %d %d (nth %d kt []))" % (v["a"], v["w"], v["k"])), p["t"]))
+
+
 def scenario_term(r):
     kt = clist(r["keytab"], cbytes)
-    params = clist(r["params"], lambda p: "(%d, Build_params %s %d)" % (
-        p["h"], clist(p["v"], lambda v: "(Build_validator %d %d (nth %d kt []))" % (v["a"], v["w"], v["k"])), p["t"]))
     chain = clist(r["chain"], lambda h: "(%d, Build_header %s %d)" % (h["h"], cert(h["c"]), h["ac"]))
-    env = "(Build_env %d %d %s %s)" % (r["mhp"], r["mhc"], params, chain)
+    env = "(Build_env %d %d %s %s)" % (r["mhp"], r["mhc"], params_term(r["params"]), chain)
     pool0 = "(%s, %s)" % (commits(r.get("pg0")), commits(r.get("png0")))
-    return "(let kt := %s in (kt, %s, %s, %s))" % (kt, env, pool0, clist(r["ops"], op_term))
+    return "(let kt := %s in (kt, %s, %s, %s, %s))" % (kt, env, params_term(r["sched"]), pool0, clist(r["ops"], op_term))
 
 
 def split(r, chunk=150):
@@ -182,7 +185,7 @@ def run(ck):
     if not binp:
         return
     if ck.tier == "quick":
-        args = ["-scenarios", "6", "-long", "2", "-poolops", "60", "-phases", "2"]
+        args = ["-scenarios", "8", "-long", "3", "-poolops", "50", "-phases", "2"]
     else:
         args = ["-scenarios", "40", "-long", "10", "-poolops", "150", "-phases", "4"]
     recs = ck.run_harness(binp, args)
